@@ -68,8 +68,41 @@ func (f *vpause) Call(s *slip.Scope, args slip.List, depth int) slip.Object {
 	return nil
 }
 
+// vhold stands for a routine that is in the middle of a slot access of a synchronized instance: it takes the
+// instance lock through the instance's own exported Lock(), says so on the first channel, waits for a value on
+// the second one and releases the lock.
+type vhold struct{ slip.Function }
+
+type instLocker interface {
+	Lock()
+	Unlock()
+}
+
+func (f *vhold) Call(s *slip.Scope, args slip.List, depth int) slip.Object {
+	l, ok := args[0].(instLocker)
+	told, ok2 := args[1].(gi.Channel)
+	wait, ok3 := args[2].(gi.Channel)
+	if !ok || !ok2 || !ok3 {
+		panic("vhold: instance channel channel")
+	}
+	l.Lock()
+	told <- slip.True
+	<-wait
+	l.Unlock()
+	return nil
+}
+
 func defineBuiltins() {
 	defer func() { _ = recover() }()
+	slip.Define(
+		func(args slip.List) slip.Object {
+			f := vhold{Function: slip.Function{Name: "vhold", Args: args}}
+			f.Self = &f
+			return &f
+		},
+		&slip.FuncDoc{Name: "vhold", Args: []*slip.DocArg{{Name: "instance", Type: "instance"}, {Name: "told", Type: "channel"}, {Name: "wait", Type: "channel"}},
+			Return: "nil", Text: "verification: hold the instance lock as a slot access in flight does"},
+		&slip.UserPkg)
 	slip.Define(
 		func(args slip.List) slip.Object {
 			f := vyield{Function: slip.Function{Name: "vyield", Args: args}}
